@@ -15,6 +15,11 @@ def run(ctx):
     # "the path is the input's resolved path": the resolver against the RFC 3986 reference
     ctx.fn("ural.utils.normpath")
     U.normpath_table(ctx, "R11", 5 if ctx.tier == "thorough" else 4)
+    # an option that is off leaves its items alone, whatever was normalized before in the same process
+    from .c04 import probe_agreement
+    probe_agreement(ctx, "R12")
+    from . import common_state as ST
+    ST.rule_memo_keys(ctx, "R13")
     whole_label(ctx, "R1")
     option_ownership(ctx, "R2", n)
     deletion_only(ctx, "R3", n)
